@@ -10,6 +10,7 @@ The property-level claim is the composition of the per-function contracts below:
 Hence the consumed spans tile the input and every non-blank character lies in the lexeme of exactly one token.
 """
 import z3
+from vf.pyvc.values import Unsupported
 
 from formulae.scanner import Scanner, ScanError   # noqa: F401
 from formulae.token import Token                  # noqa: F401
@@ -44,15 +45,35 @@ def _text(I, a, kw, node):
 REG.externals[f"{__name__}.text"] = _text
 
 
-def _to_number(I, a, kw, node):
-    v = a[0]
-    if isinstance(v, SList):
-        return SOpaque(ufun("num.of_text", z3.IntSort(), U())(text_id(v)), "any")
-    raise Exception("float()/int()/eval() of a non-text value")
+def _of_text(which):
+    def model(I, a, kw, node):
+        from vf.pyvc.values import SStr
+        v = a[0]
+        if isinstance(v, SList) and len(a) == 1:
+            return SOpaque(ufun(which + ".of_text", z3.IntSort(), U())(text_id(v)), "any")
+        if isinstance(v, (str, SStr)) and len(a) == 1:
+            from vf.pyvc.ops import str_term
+            return SOpaque(ufun(which + ".of_text", z3.IntSort(), U())(str_term(v)), "any")
+        raise Unsupported(f"{which}() of a non-text value")
+    return model
 
 
-for _f in (float, int, eval):
-    REG.external_objects[_f] = _to_number
+def int_of(s):
+    """int(s) of a lexeme (specification helper; executable on real strings)"""
+    return int(s)
+
+
+def float_of(s):
+    return float(s)
+
+
+def eval_of(s):
+    return eval(s)      # pylint: disable=eval-used
+
+
+for _f, _n in ((float, "float"), (int, "int"), (eval, "eval")):
+    REG.external_objects[_f] = _of_text(_n)
+    REG.externals[f"{__name__}.{_n}_of"] = _of_text(_n)
 
 if not hasattr(REG, "lemmas"):
     REG.lemmas = []
@@ -86,13 +107,16 @@ REG.contract(S + "match", params={"expected": "char"}, returns="bool", tags=TAGS
              ensures=["result == (old(self.current) < len(self.code) and self.code[old(self.current)] == expected)",
                       "self.current == old(self.current) + (1 if result else 0)"])
 REG.contract(S + "add_token", params={"kind": "str", "literal": "Val"}, tags=TAGS, requires=BOUNDS, modifies=["self.tokens"],
-             ensures=ONE_TOKEN + ["self.tokens[old(len(self.tokens))].kind == kind"])
+             ensures=ONE_TOKEN + ["self.tokens[old(len(self.tokens))].kind == kind",
+                                  "self.tokens[old(len(self.tokens))].literal == literal"])
 
 LEX = dict(requires=BOUNDS + ["self.start < self.current"], modifies=["self.current", "self.tokens"], tags=TAGS)
 DIGITS_TO = "forall(old(self.current), {hi}, lambda k: self.code[k].isdigit())"
 REG.contract(S + "floatnum", **LEX,
              ensures=ONE_TOKEN + ["self.current >= old(self.current)", "self.current <= len(self.code)",
                                   "self.tokens[old(len(self.tokens))].kind == 'NUMBER'",
+                                  # C12: the literal is Python's float() of exactly the spelled text
+                                  "self.tokens[old(len(self.tokens))].literal == float_of(text(self.code, self.start, self.current))",
                                   DIGITS_TO.format(hi="self.current")],
              loops={1: Loop(invariant=["old(self.current) <= self.current", "self.current <= len(self.code)",
                                        DIGITS_TO.format(hi="self.current")], modifies=["self.current"],
@@ -102,7 +126,13 @@ REG.contract(S + "number", **LEX,
                                   "self.tokens[old(len(self.tokens))].kind == 'NUMBER'",
                                   # digits, optionally one '.' followed by at least one digit and more digits
                                   "forall(old(self.current), self.current, lambda k: self.code[k].isdigit() or "
-                                  "(self.code[k] == '.' and k + 1 < self.current and self.code[k + 1].isdigit()))"],
+                                  "(self.code[k] == '.' and k + 1 < self.current and self.code[k + 1].isdigit()))",
+                                  # C12: an integer spelling is read by int() - exactly, whatever its size - and one with a
+                                  # fractional part by float(), both of exactly the spelled text
+                                  "implies(forall(old(self.current), self.current, lambda k: self.code[k] != '.'), "
+                                  "self.tokens[old(len(self.tokens))].literal == int_of(text(self.code, self.start, self.current)))",
+                                  "implies(exists(old(self.current), self.current, lambda k: self.code[k] == '.'), "
+                                  "self.tokens[old(len(self.tokens))].literal == float_of(text(self.code, self.start, self.current)))"],
              loops={1: Loop(invariant=["old(self.current) <= self.current", "self.current <= len(self.code)",
                                        "not is_float", DIGITS_TO.format(hi="self.current")], modifies=["self.current"],
                             decreases="len(self.code) - self.current"),
@@ -115,8 +145,15 @@ REG.contract(S + "number", **LEX,
 IDCH = "(self.code[k].isalnum() or self.code[k] == '.' or self.code[k] == '_')"
 REG.contract(S + "identifier", **LEX,
              ensures=ONE_TOKEN + ["self.current >= old(self.current)", "self.current <= len(self.code)",
-                                  "self.tokens[old(len(self.tokens))].kind == 'IDENTIFIER' or "
-                                  "self.tokens[old(len(self.tokens))].kind == 'PYTHON_LITERAL'",
+                                  # C12: True / False / None are literals with Python's value, every other name is a name
+                                  "(self.tokens[old(len(self.tokens))].kind == 'PYTHON_LITERAL') == "
+                                  "(text(self.code, self.start, self.current) in ('True', 'False', 'None'))",
+                                  "(self.tokens[old(len(self.tokens))].kind == 'IDENTIFIER') == "
+                                  "(text(self.code, self.start, self.current) not in ('True', 'False', 'None'))",
+                                  "implies(self.tokens[old(len(self.tokens))].kind == 'PYTHON_LITERAL', "
+                                  "self.tokens[old(len(self.tokens))].literal == eval_of(text(self.code, self.start, self.current)))",
+                                  "implies(self.tokens[old(len(self.tokens))].kind == 'IDENTIFIER', "
+                                  "self.tokens[old(len(self.tokens))].literal is None)",
                                   f"forall(old(self.current), self.current, lambda k: {IDCH})",
                                   # maximal munch: the identifier stops only before a non-identifier character
                                   "implies(self.current < len(self.code), not (self.code[self.current].isalnum() or "
@@ -128,6 +165,8 @@ REG.contract(S + "char", requires=BOUNDS + ["self.start < self.current"], modifi
              raises={"ScanError": "forall(self.current, len(self.code), lambda k: self.code[k] != \"'\" and self.code[k] != '\"')"},
              ensures=ONE_TOKEN + ["self.current > old(self.current)", "self.current <= len(self.code)",
                                   "self.tokens[old(len(self.tokens))].kind == 'STRING'",
+                                  # C12: the literal is the text between the quotes, unchanged
+                                  "self.tokens[old(len(self.tokens))].literal == text(self.code, self.start + 1, self.current - 1)",
                                   # the token ends with the first quote after the opening one
                                   "self.code[self.current - 1] == \"'\" or self.code[self.current - 1] == '\"'",
                                   "forall(old(self.current), self.current - 1, lambda k: self.code[k] != \"'\" and self.code[k] != '\"')"],
